@@ -1,2 +1,4 @@
+pub mod diff;
+pub mod interp;
 pub mod member;
 pub mod vpath;
